@@ -192,8 +192,65 @@ def check_group(rep, specs, attrs):
             walk(acc_nested, [])
             if not why and sorted(flat, key=lambda x: (str(x[0]), x[1])) != sorted(exp, key=lambda x: (str(x[0]), x[1])):
                 why = 'group_by_nested(..., into=<existing groups>) loses or duplicates elements'
+        if not why:
+            # the nested grouping unpacks to the same elements; sorting options only reorder inside a group
+            cls = type(l)
+            n = l.group_by_nested(list(attrs))
+            if sorted(ids(cls.unpack_group(n))) != sorted(ids(objs)):
+                why = 'unpack_group of a nested grouping does not return the grouped elements'
+            for sk in ('i', 's.num', 't.num,r.num'):
+                if why:
+                    break
+                gs = l.group_by(list(attrs) if len(attrs) > 1 else attrs[0], sort_key=sk, sort_reverse=(sk == 's.num'))
+                if list(gs.keys()) != list(g.keys()) or any(sorted(ids(gs[k])) != sorted(ids(g[k])) for k in g):
+                    why = f'group_by(sort_key={sk!r}) changes the partition'
+                    break
+                for k in g:
+                    ref = cls(list(g[k]))
+                    ref.custom_sort(sk, reverse=(sk == 's.num'))
+                    if ids(gs[k]) != ids(ref):
+                        why = f'group_by(sort_key={sk!r}): a group is not sorted as custom_sort sorts it'
+                        break
+                if not why:
+                    ns = l.group_by_nested(list(attrs), sort_key=sk)
+                    if sorted(ids(cls.unpack_group(ns))) != sorted(ids(objs)):
+                        why = f'group_by_nested(sort_key={sk!r}) loses or duplicates elements'
+                if not why:
+                    un = cls.unpack_group(g, sort_key=sk)
+                    ref = cls(allg)
+                    ref.custom_sort(sk)
+                    if ids(un) != ids(ref):
+                        why = f'unpack_group(sort_key={sk!r}) is not the sorted list of the grouped elements'
     if why:
         rep.violation('failing-input', {'op': 'group_by', 'elements': [list(s) for s in specs], 'attrs': list(attrs), 'why': why})
+
+
+def check_desc_wrappers(rep, r):
+    """PLSSDesc.group_by / group_by_nested / filter* delegate to the description's TractList"""
+    text = r.choice(['T154N-R97W Sec 14: NE/4, Sec 15: W/2, Sec 14: S/2\nT155N-R97W Sec 1: Lots 1 - 3, Sec 14: ALL',
+                     'NE/4 of Sec 5, T2N-R3W, W/2 of Sec 9 and 10, T2N-R3W, all of Section, T2N-R3W',
+                     'T1S-R1E Sec 1 - 4: N/2'])
+    d = pytrs.PLSSDesc(text, parse_qq=True)
+    attrs = r.choice([['twprge'], ['sec'], ['twprge', 'sec'], ['twp', 'rge', 'sec_num']])
+    why = None
+
+    def flat(dct, path=()):
+        out = []
+        for k, v in dct.items():
+            if isinstance(v, dict):
+                out += flat(v, path + (k,))
+            else:
+                out += [(path + (k,), id(o)) for o in v]
+        return out
+    a = attrs if len(attrs) > 1 else attrs[0]
+    if flat(d.group_by(a)) != flat(d.tracts.group_by(a)):
+        why = 'PLSSDesc.group_by differs from its TractList.group_by'
+    elif flat(d.group_by_nested(attrs)) != flat(d.tracts.group_by_nested(attrs)):
+        why = 'PLSSDesc.group_by_nested differs from its TractList.group_by_nested'
+    elif sorted(x[1] for x in flat(d.group_by_nested(attrs))) != sorted(id(t) for t in d.tracts):
+        why = 'PLSSDesc.group_by_nested does not put every tract into exactly one group'
+    if why:
+        rep.violation('failing-input', {'op': 'PLSSDesc grouping wrappers', 'text': text, 'attrs': attrs, 'why': why})
 
 
 def check_construction(rep, r):
@@ -350,6 +407,8 @@ def run(ctx):
         items.append((impl.line_cont_filter_dups(specs, method, drop), impl.impl_cont_filter_dups(specs, method, drop), {'op': 'filter_duplicates', 'method': method, 'drop': drop, 'elements': [list(s) for s in specs]}))
         attrs = [r.choice(ATTRS) for _ in range(r.range(1, 3))]
         safely(rep, 'group_by', check_group, specs, attrs)
+        if i % 10 == 0:
+            safely(rep, 'PLSSDesc grouping wrappers', check_desc_wrappers, r)
         items.append((impl.line_cont_group(specs, attrs), impl.impl_cont_group(specs, attrs), {'op': 'group_by', 'attrs': attrs, 'elements': [list(s) for s in specs]}))
         rep.count(4)
         if len(specs) >= 2:
